@@ -1,6 +1,7 @@
 import HeraModel.VM
 import HeraModel.Generated.Tables
 import HeraModel.Model.Run
+import HeraModel.Model.Checker
 /-
   Line protocol between the Python harness and the model driver `herad`:
   whitespace-separated tokens, integers in decimal, lists length-prefixed.
@@ -137,6 +138,35 @@ def program : R Program := do
   let code ← list op
   pure { data, code }
 
+def tokR : R Tok := do
+  let t ← tok
+  if t == "I" then do let v ← int; pure (.int v)
+  else if t == "R" then do let v ← int; pure (.reg v)
+  else if t == "Y" then do let s ← str; pure (.sym s)
+  else if t == "S" then do let s ← str; pure (.str s)
+  else fail s!"bad token tag {t}"
+
+def sop : R Chk.SOp := do
+  let c ← cls
+  let toks ← list tokR
+  let loc ← int
+  pure { cls := c, toks, loc }
+
+def symVal : R Chk.SymVal := do
+  let k ← nat
+  let v ← int
+  pure (if k == 0 then .label v else if k == 1 then .dlabel v else .const v)
+
+def symTab : R Chk.SymTab := list (pair val symVal)
+
+def csettings : R Chk.CSettings := do
+  let m ← nat
+  let ai ← bool
+  let nd ← bool
+  let ds ← int
+  pure { mode := (if m == 0 then .run else if m == 1 then .debug else if m == 2 then .assemble else .preprocess),
+         allow_interrupts := ai, no_debug_ops := nd, data_start := ds }
+
 /-! ### writers -/
 
 def wInt (i : Int) : String := toString i
@@ -169,6 +199,23 @@ def wVM (v : VM) : String :=
     wMemory v.memory, wStr v.input_buffer, wInt v.input_pos, wList wPair v.expected_returns,
     wBool v.halted, wInt v.location, wInt v.op_count, wBool v.warned_for_SWI, wBool v.warned_for_RTI,
     wBool v.warned_for_overflow, wInt v.warning_count, wSettings v.settings, wOut v.out]
+
+def wString (s : String) : String := wStr (Str.ofString s)
+def wTokP : Tok → String
+  | .int v => s!"I {v}"
+  | .reg v => s!"R {v}"
+  | .sym s => s!"Y {wStr s}"
+  | .str s => s!"S {wStr s}"
+def wVal : Val → String
+  | .int v => s!"I {v}"
+  | .str s => s!"S {wStr s}"
+def wSymVal : Chk.SymVal → String
+  | .label v => s!"0 {v}"
+  | .dlabel v => s!"1 {v}"
+  | .const v => s!"2 {v}"
+def wMsgs (m : Chk.Msgs) : String :=
+  s!"{wList (fun (p : String × Int) => wString p.1) m.errors} {wList (fun (p : String × Int) => wString p.1) m.warnings}"
+def wROp (r : Chk.ROp) : String := s!"{r.cls.pyName} {wList wTokP r.toks} {r.loc}"
 
 end Proto
 end Hera
